@@ -1757,6 +1757,7 @@ func (ex *Exec) proofCut(fr *Frame, st *State, in *ssa.Call) {
 	}
 	ex.cutOrdinal[callee]++
 	ord := ex.cutOrdinal[callee]
+	var here []CallSiteReq
 	for _, cs := range root.ct.Cuts {
 		want := cs.Callee
 		if k := strings.LastIndex(want, "#"); k >= 0 {
@@ -1770,7 +1771,15 @@ func (ex *Exec) proofCut(fr *Frame, st *State, in *ssa.Call) {
 		if want != callee && !strings.HasSuffix(want, "."+callee) && !strings.HasSuffix(callee, "."+want) {
 			continue
 		}
-		en := ex.newEnv(root, st, ex.preState, root.params)
+		here = append(here, cs)
+	}
+	if len(here) == 0 {
+		return
+	}
+	// all clauses of this cut are obligations in the state before the cut
+	for _, cs := range here {
+		// names denote the current values of the locals (parameters are spilled to locals in naive form)
+		en := ex.newEnv(root, st, ex.preState, map[string]Val{})
 		en.pos = in.Pos()
 		t, err := en.evalBool(cs.E)
 		if err != nil {
@@ -1783,38 +1792,69 @@ func (ex *Exec) proofCut(fr *Frame, st *State, in *ssa.Call) {
 			o.HasQuant = en.quant
 		}
 		ex.callSiteHits["cut:"+cs.Label]++
-		// forget everything
-		ex.note("proof cut %s before the call of %s: heap, locals and intermediate values forgotten, the clause assumed", cs.Label, callee)
-		ex.calleeHavoc++
-		ex.havocAll(st, "proof cut "+cs.Label)
-		ex.calleeHavoc--
-		for a := range st.vars {
-			T := a.Type().(*types.Pointer).Elem()
-			v := ex.freshVal("cut."+a.Comment, T)
-			ex.constrainVal(v)
-			ex.assumeAllocated(st, v)
-			st.vars[a] = v
+	}
+	// forget everything
+	ex.note("proof cut before the call of %s: heap, locals and intermediate values forgotten, the cut clauses assumed", callee)
+	ex.calleeHavoc++
+	ex.havocAll(st, "proof cut before "+callee)
+	ex.calleeHavoc--
+	for a := range st.vars {
+		if paramSpill(a) {
+			continue // a parameter that is never reassigned keeps its value
 		}
-		for k, v := range fr.vals {
-			switch k.(type) {
-			case *ssa.Parameter, *ssa.FreeVar, *ssa.Alloc, *ssa.MakeClosure, *ssa.Const, *ssa.Global, *ssa.Function:
-				continue
-			}
-			if v.Clos != nil || v.T == nil {
-				continue
-			}
-			nv := ex.freshVal("cutv."+k.Name(), v.T)
-			ex.constrainVal(nv)
-			ex.assumeAllocated(st, nv)
-			fr.vals[k] = nv
+		T := a.Type().(*types.Pointer).Elem()
+		v := ex.freshVal("cut."+a.Comment, T)
+		ex.constrainVal(v)
+		ex.assumeAllocated(st, v)
+		st.vars[a] = v
+	}
+	// the operands of the call itself were evaluated before the cut and stay what they are
+	keep := map[ssa.Value]bool{}
+	for _, op := range in.Operands(nil) {
+		if op != nil && *op != nil {
+			keep[*op] = true
 		}
-		en2 := ex.newEnv(root, st, ex.preState, root.params)
+	}
+	for k, v := range fr.vals {
+		switch k.(type) {
+		case *ssa.Parameter, *ssa.FreeVar, *ssa.Alloc, *ssa.MakeClosure, *ssa.Const, *ssa.Global, *ssa.Function:
+			continue
+		}
+		if keep[k] || v.Clos != nil || v.T == nil {
+			continue
+		}
+		nv := ex.freshVal("cutv."+k.Name(), v.T)
+		ex.constrainVal(nv)
+		ex.assumeAllocated(st, nv)
+		fr.vals[k] = nv
+	}
+	for _, cs := range here {
+		en2 := ex.newEnv(root, st, ex.preState, map[string]Val{})
 		en2.pos = in.Pos()
 		t2, err := en2.evalBool(cs.E)
-		if err == nil {
+		if err != nil {
+			ex.errors = append(ex.errors, fmt.Sprintf("%s: cutat %s (after the cut): %v", cs.Line, cs.Label, err))
+		} else {
 			ex.assume(st.pc, t2)
 		}
-		// objects this function has not written to satisfy their type invariants (as after any call)
-		ex.reassumeRootInvs(st)
 	}
+	// objects this function has not written to satisfy their type invariants (as after any call)
+	ex.reassumeRootInvs(st)
+}
+
+// paramSpill: the local holds a parameter (naive form spills parameters to locals) and is never assigned again.
+func paramSpill(a *ssa.Alloc) bool {
+	if a.Referrers() == nil {
+		return false
+	}
+	n := 0
+	for _, r := range *a.Referrers() {
+		if st, ok := r.(*ssa.Store); ok && st.Addr == ssa.Value(a) {
+			if _, isParam := st.Val.(*ssa.Parameter); !isParam {
+				return false
+			}
+			n++
+		}
+	}
+	return n == 1
 }
